@@ -153,13 +153,31 @@ def replay_routing(arg):
     frame = pd.DataFrame([{'Subject': r['id'], 'T': 0.5 * r['t'], 'Obs': (np.nan if r['obs'] == 'none' else r['obs']),
                            'Val': 1.0 + r['v'] + jit * k, 'Dose': (np.nan if r['dose'] == 0 else 2.0 * r['dose']),
                            'Duration': (np.nan if r['dur'] == 0 else 0.1), 'Note': ('x%d' % k if jit else 'x')} for k, r in enumerate(rows)])
+    # missing values: every third case one row of the chosen observable lacks its VALUE or its TIME (not both); the row stays
+    # a row -- its pair is (time, missing) or (missing, value), and the pairs after it stay paired as they were
+    miss = {}
+    a_rows = [k for k, r in enumerate(rows) if r['obs'] == 'A']
+    if a_rows and int(digest(rec), 16) % 3 == 0:
+        k_m = a_rows[(int(digest(rec), 16) // 3) % len(a_rows)]
+        miss[k_m] = 'Val' if (int(digest(rec), 16) // 9) % 2 else 'T'
+        frame.loc[frame.index[k_m], miss[k_m]] = np.nan
+        feats.append('row_with_a_missing_' + ('value' if miss[k_m] == 'Val' else 'time'))
+        cnt['feat_row_with_a_missing_entry'] = 1
     before = frame.copy(deep=True)
     kw = dict(id_key='Subject', time_key='T', obs_key='Obs', value_key='Val')
     exp_traces = []
     for i in rec['ids']:
-        pts = [(0.5 * r['t'], 1.0 + r['v'] + jit * k) for k, r in enumerate(rows) if r['id'] == i and r['obs'] == 'A']
+        pts = [(np.nan if miss.get(k) == 'T' else 0.5 * r['t'], np.nan if miss.get(k) == 'Val' else 1.0 + r['v'] + jit * k)
+               for k, r in enumerate(rows) if r['id'] == i and r['obs'] == 'A']
         exp_traces.append((i, pts))
-    exp_doses = {i: [(0.5 * r['t'], 2.0 * r['dose']) for r in rows if r['id'] == i and r['dose'] > 0] for i in rec['ids']}
+    exp_doses = {i: [(np.nan if miss.get(k) == 'T' else 0.5 * r['t'], 2.0 * r['dose']) for k, r in enumerate(rows)
+                     if r['id'] == i and r['dose'] > 0] for i in rec['ids']}
+    def same_pts(a_, b_):
+        """traces compared pair by pair; a pair with a missing entry may be kept (as chi does) or left out -- what matters is
+        that every complete pair is there, in order, paired as in its row"""
+        def complete(p_):
+            return [tuple(q_) for q_ in p_ if not any(np.isnan(float(z_)) for z_ in q_)]
+        return len(a_) == len(b_) and all(complete(p_) == complete(q_) for p_, q_ in zip(a_, b_))
     for cls in ('PDTimeSeriesPlot', 'PDPredictivePlot', 'PKTimeSeriesPlot', 'PKPredictivePlot'):
         try:
             with warnings.catch_warnings():
@@ -179,14 +197,18 @@ def replay_routing(arg):
             biom_tr = [t for t in tr if t.yaxis == 'y2']
         else:
             dose_tr, biom_tr = [], tr
+        if any(len(np.atleast_1d(t.x)) != len(np.atleast_1d(t.y)) for t in tr):
+            fail('RoutingOK', 'trace_with_unequal_numbers_of_times_and_values', dict(cls=cls))
+            continue
         got = [(t.name, list(zip(np.asarray(t.x, dtype=float).tolist(), np.asarray(t.y, dtype=float).tolist()))) for t in biom_tr]
         exp = [('ID: %s' % i, pts) for i, pts in exp_traces]
-        if [g[1] for g in got] != [e[1] for e in exp] or [g[0].replace('ID: ', '') for g in got] != [str(i) for i, _ in exp_traces]:
+        if not same_pts([g[1] for g in got], [e[1] for e in exp]) or \
+                [g[0].replace('ID: ', '') for g in got] != [str(i) for i, _ in exp_traces]:
             fail('RoutingOK', 'marker_traces', dict(cls=cls, got=got, expected=exp))
         if cls.startswith('PK'):
             gotd = [list(zip(np.asarray(t.x, dtype=float).tolist(), np.asarray(t.y, dtype=float).tolist())) for t in dose_tr]
             expd = [exp_doses[i] for i in rec['ids']]
-            if gotd != expd:
+            if not same_pts(gotd, expd):
                 fail('RoutingOK', 'dose_traces', dict(cls=cls, got=gotd, expected=expd))
     # ---- add_simulation (Plots!SimTrace): one line through every row of the frame, in frame order -----------------------
     if 'sim' in rec:
@@ -198,10 +220,11 @@ def replay_routing(arg):
                 n0 = len(fig._fig.data)
                 fig.add_simulation(frame, time_key='T', value_key='Val')
             new = list(fig._fig.data)[n0:]
-            exp_line = [(0.5 * t_, 1.0 + v_ + jit * k) for k, (t_, v_) in enumerate(rec['sim'])]
+            exp_line = [(np.nan if miss.get(k) == 'T' else 0.5 * t_, np.nan if miss.get(k) == 'Val' else 1.0 + v_ + jit * k)
+                        for k, (t_, v_) in enumerate(rec['sim'])]
             got_line = [list(zip(np.asarray(t.x, dtype=float).tolist(), np.asarray(t.y, dtype=float).tolist())) for t in new]
             cnt['evaluations'] = cnt.get('evaluations', 0) + 1
-            if got_line != [exp_line] or (new and new[0].mode != 'lines'):
+            if not same_pts(got_line, [exp_line]) or (new and new[0].mode != 'lines'):
                 fail('RoutingOK', 'simulation_line', dict(got=got_line, expected=[exp_line]))
         except Exception as e:
             fail('Evaluable', type(e).__name__, dict(cls='PDTimeSeriesPlot.add_simulation', error=repr(e)))
